@@ -243,7 +243,7 @@ def definition_template(F, rep, T, rule="LOCAL"):
     alts = [it for it in (d or []) if it[0] == "alt"]
     ok = False
     got = "no alternatives found"
-    if len(d or []) == 1 and alts and len(alts[0][1]) == 2:
+    if len(d or []) == 1 and alts and len(alts[0][1]) == 2 and all(isinstance(i, (list, tuple)) and len(i) >= 3 for a in alts[0][1] for i in a):
         shapes = []
         for a in alts[0][1]:
             shapes.append([(i[0], i[1], tuple(map(tuple, i[2])) if i[0] == "op" else i[2]) for i in a])
